@@ -24,11 +24,11 @@ import (
 type KV struct {
 	DB       int
 	Key      []byte
-	Type     byte     // 0 string, 1 list, 2 set, 3 zset (ascii score), 4 hash
-	ExpireAt uint64   // ms, 0 = none
-	Str      []byte   // type 0
-	Items    [][]byte // list/set members; hash: field,value,…; zset: member,score,…
-	IntEnc   bool     // type 0: write the value int-encoded when it fits
+	Type     byte       // 0 string, 1 list, 2 set, 3 zset (ascii score), 4 hash
+	ExpireAt uint64     // ms, 0 = none
+	Str      []byte     // type 0
+	Items    [][]byte   // list/set members; hash: field,value,…; zset: member,score,…
+	IntEnc   bool       // type 0: write the value int-encoded when it fits
 	Raw      []byte     // other types (e.g. 15 stream): the value bytes as they go on disk
 	Ops      [][]string // other types: the native commands the value expands to (monitor's expectation)
 }
@@ -78,8 +78,8 @@ func encIntStr(s []byte) ([]byte, bool) {
 type Opts struct {
 	Aux      bool // write AUX redis-ver / redis-bits
 	ResizeDB bool
-	Version  int // header version (default 9)
-	NoCRC    bool // footer all zero ("checksum disabled")
+	Version  int    // header version (default 9)
+	NoCRC    bool   // footer all zero ("checksum disabled")
 	Lua      []byte // AUX field "lua" (a script the replay must SCRIPT LOAD)
 }
 
@@ -692,6 +692,19 @@ func SmallStreamG(key, field, group string) KV {
 			[]string{"xclaim", key, group, "c1", "0", "1000-1", "TIME", "5", "RETRYCOUNT", "1", "JUSTID", "FORCE"})
 	}
 	return KV{Key: []byte(key), Type: 15, Raw: raw.Bytes(), Ops: ops}
+}
+
+// ModuleValue: a value of a module type (RDB type 7, module id written as a
+// 64-bit length, one unsigned and one string field, EOF opcode): replayable
+// through RESTORE only.
+func ModuleValue(key string) KV {
+	raw := []byte{0x81, 0x4d, 0x79, 0x6d, 0x6f, 0x64, 0x2d, 0x61, 0x01} // module id
+	raw = append(raw, EncLen(2)...)
+	raw = append(raw, EncLen(42)...)
+	raw = append(raw, EncLen(5)...)
+	raw = append(raw, EncStr([]byte("mv"))...)
+	raw = append(raw, EncLen(0)...)
+	return KV{Key: []byte(key), Type: 7, Raw: raw}
 }
 
 // DumpPayload: what DUMP/RESTORE carry for the value.
